@@ -208,6 +208,8 @@ structure EState where
   lru : NMap (Cache LruE) := []
   /-- ghost: number of `time.Now()` readings taken by the heaps so far in this command -/
   ticks : Nat := 0
+  /-- ghost: number of cache updates (updateKeysInCache calls) completed so far in this command -/
+  phase : Nat := 0
 deriving DecidableEq, Repr, Inhabited
 
 /-- choices the Go code leaves open -/
@@ -225,6 +227,10 @@ structure Env where
   /-- random policies: keys whose status differs from what `keep` suggests (removed by the policy and written again by
       the same command, or spared by the policy and deleted by the command itself) -/
   flip : List Bytes := []
+  /-- random policies: the keys named by the command are not removed before the `holdUntil`-th cache update of the
+      command (which of the command's updates removed them is not visible in the state after) -/
+  hold : List Bytes := []
+  holdUntil : Nat := 0
 deriving Repr, Inhabited
 
 def popcountBelow (mask : Nat) : Nat → Nat
@@ -307,9 +313,10 @@ def adjustLru (cfg : Cfg) (db : Nat) : Nat → EState → Except Halt (Bool × E
         | .ok es' => if below cfg es' then .ok (true, es') else adjustLru cfg db fuel es'
 
 /-- the keys of `db` that the observed run did not keep, cheapest first -/
-def victims (env : Env) (s : State) (db : Nat) : List Bytes :=
+def victims (env : Env) (s : State) (phase : Nat) (db : Nat) : List Bytes :=
   let keep := (env.keep.get db).getD []
-  let vs := ((s.db db).store.map (·.1)).filter fun k => (!keep.contains k) != env.flip.contains k
+  let vs := ((s.db db).store.map (·.1)).filter fun k =>
+    ((!keep.contains k) != env.flip.contains k) && !(env.hold.contains k && phase < env.holdUntil)
   vs.mergeSort fun a c => costOf s db a ≤ costOf s db c
 
 /-- allkeys-random :528. One round removes the idx-th key of the database in map order (any key), or nothing when
@@ -318,7 +325,7 @@ def adjustAllRandom (cfg : Cfg) (env : Env) (db : Nat) : Nat → EState → Exce
   | 0, _ => .error (.hang "allkeys-random loop")
   | fuel + 1, es =>
     if (es.s.db db).store.isEmpty then .error (.hang "allkeys-random on an empty database") else
-    match victims env es.s db with
+    match victims env es.s es.phase db with
     | [] => .error (.stuck "allkeys-random must remove a key the observed run kept")
     | k :: _ =>
       match deleteKeyE cfg es db k with
@@ -423,7 +430,7 @@ def updateKeysInCache (c : Ctx) (env : Env) (es : EState) (ks : List Bytes) : Ex
   | .ok (n, es') =>
     match adjustAll c.cfg env (dbOrderOf env es') es' with
     | .error h => .error h
-    | .ok (e, es'') => .ok ((n, e), es'')
+    | .ok (e, es'') => .ok ((n, e), { es'' with phase := es''.phase + 1 })
 
 /-- getValues :149 with deleteKey's cache leg -/
 def getValuesE (c : Ctx) : List Bytes → EState → Except Halt (List Val × EState)
@@ -592,7 +599,7 @@ def stepE (c : Ctx) (env : Env) (es : EState) (cmd : List Bytes) : Option (Excep
   | name :: _ =>
     if !isAscii name then none else
     let n := toLower name
-    let es := { es with ticks := 0 }
+    let es := { es with ticks := 0, phase := 0 }
     if n == b "@tick" then
       some ((samplerPass c.cfg c.db es).map fun e => (.res (.ok []), e))
     else if n == b "touch" then some (handleTouchE c env es cmd)
